@@ -1183,6 +1183,8 @@ def gen_edit(ch, stmt, attempts=6, prefer=()):
                 continue
             if wellformed.check(new) is not None:
                 continue
+            if 'dup-names' in features(new) and 'dup-names' not in features(stmt):
+                continue  # stay inside the generator's domain: unique output names within a selection
         except KeyError:
             continue
         return {'ast': new, 'edit': kind, 'path': list(path)}
